@@ -150,14 +150,14 @@ func verifC47ID(prefix string, n int) string {
 
 // Object indices of the fixed repository.
 const (
-	c47Tree = iota // b000a...  shares "b000" with the octopus commit
-	c47C0          // a0a00...  root
-	c47C1          // a0a01...  parent C0                shares "a0a0" with C0
-	c47C2          // a1b00...  parent C0
-	c47C3          // a1b1...   parents C1, C2           shares "a1b" with C2 and the tag
-	c47C4          // b0000...  parents C3, C2, C1 (octopus)
-	c47Tag         // a1b0f...  annotated tag of C2      shares "a1b0" with C2
-	c47TagTag      // c0c0...   annotated tag of the tag
+	c47Tree   = iota // b000a...  shares "b000" with the octopus commit
+	c47C0            // a0a00...  root
+	c47C1            // a0a01...  parent C0                shares "a0a0" with C0
+	c47C2            // a1b00...  parent C0
+	c47C3            // a1b1...   parents C1, C2           shares "a1b" with C2 and the tag
+	c47C4            // b0000...  parents C3, C2, C1 (octopus)
+	c47Tag           // a1b0f...  annotated tag of C2      shares "a1b0" with C2
+	c47TagTag        // c0c0...   annotated tag of the tag
 )
 
 // verifC47FixedRepo: the repository of the suffix and names harnesses.
@@ -242,23 +242,30 @@ func verifC47Symbolic(e []byte, k int, alphabet string) []byte {
 var verifC47Alphabets = []string{
 	0: "~^0123",
 	1: "~^012{}",
-	2: "~^01{}@:au",
+	2: "^{}~1@:",
 	3: "ab01",
 	4: "ab01f",
 	5: "ab01mt/",
-	6: "ab01f@HEADmto/",
 }
 
-// Suffix harness: expression = one of the base names (BASE selects how many
-// of verifC47Bases are used) followed by K symbolic bytes over alphabet ALPHA.
+// verifC47Forms: concrete selectors placed between the base name and the
+// symbolic suffix (FORMS selects how many are used; 0 is "no selector").
+var verifC47Forms = []string{
+	"", "^{}", "^{commit}", "^{object}", "^{/}", "^{tag}", "^{tree}", "^{blob}", "@{1}", "@{u}", "@{push}", ":a",
+}
+
+// Suffix harness: expression = one of the first BASES names of verifC47Bases,
+// one of the first FORMS selectors, then <= K symbolic bytes over alphabet
+// ALPHA.
 func VerifHarness_C47_suffix() {
 	m := verifC47FixedRepo()
 	r := verifC47Open(m)
-	nb := verifrt.Param("BASES")
-	base := verifC47Bases[verifrt.Range(0, nb-1)]
+	base := verifC47Bases[verifrt.Range(0, verifrt.Param("BASES")-1)]
+	form := verifC47Forms[verifrt.Range(0, verifrt.Param("FORMS")-1)]
 	k := verifrt.Range(0, verifrt.Param("K"))
-	e := verifC47Symbolic([]byte(base), k, verifC47Alphabets[verifrt.Param("ALPHA")])
-	verifC47Compare(r, m, e)
+	alphabet := verifC47Alphabets[verifrt.Param("ALPHA")]
+	e := verifC47Symbolic([]byte(base+form), k, alphabet)
+	verifC47Compare(r, m, e, alphabet)
 }
 
 // Names harness: the whole expression is L <= LMAX symbolic bytes.
@@ -266,18 +273,178 @@ func VerifHarness_C47_names() {
 	m := verifC47FixedRepo()
 	r := verifC47Open(m)
 	l := verifrt.Range(1, verifrt.Param("LMAX"))
-	e := verifC47Symbolic(nil, l, verifC47Alphabets[verifrt.Param("ALPHA")])
-	verifC47Compare(r, m, e)
+	alphabet := verifC47Alphabets[verifrt.Param("ALPHA")]
+	e := verifC47Symbolic(nil, l, alphabet)
+	verifC47Compare(r, m, e, alphabet)
 }
 
-func verifC47Compare(r *Repository, m *verifC47Repo, e []byte) {
+// verifC47NameEnd: length of the leading reference name as go-git's parseRef
+// delimits it ('~', '^', ':' or an '@' that is followed by '{' or the end).
+func verifC47NameEnd(e []byte) int {
+	for i, c := range e {
+		if c == '~' || c == '^' || c == ':' {
+			return i
+		}
+		if c == '@' && i > 0 && (i+1 == len(e) || e[i+1] == '{') {
+			return i
+		}
+	}
+	return len(e)
+}
+
+func verifC47Index(e []byte, s string) int {
+	for i := 0; i+len(s) <= len(e); i++ {
+		if verifC47HasPrefix(e[i:], s) {
+			return i
+		}
+	}
+	return -1
+}
+
+// verifC47Known declares the known-finding classes an expression belongs to
+// (predicates over the expression and the repository only).
+func verifC47Known(m *verifC47Repo, e []byte) {
+	name := e[:verifC47NameEnd(e)]
+	rest := e[len(name):]
+	hex := len(name) > 0
+	for _, c := range name {
+		if verifC47HexVal(c) < 0 {
+			hex = false
+		}
+	}
+	matches, committish := 0, 0
+	if hex && len(name) <= 40 {
+		for i := range m.Objs {
+			if m.idHasPrefix(i, name) {
+				matches++
+				if m.commitOf(i) >= 0 {
+					committish++
+				}
+			}
+		}
+	}
+	ref := -1
+	if hex {
+		ref = m.dwimRef(name)
+	}
+	// 1..3 hex digits are an abbreviation for go-git, never for git
+	verifrt.Known("C47-abbrev-shorter-than-4", hex && len(name) < 4 && committish > 0)
+	// >= 4 hex digits matching several commits/tags: go-git takes the first, git calls it ambiguous
+	verifrt.Known("C47-ambiguous-abbrev-resolved", hex && len(name) >= 4 && len(name) < 40 && committish > 1 && ref < 0)
+	// a ref whose name is also an abbreviation: git takes the ref, go-git the object
+	verifrt.Known("C47-abbrev-beats-ref", hex && len(name) >= 4 && len(name) < 40 && committish > 0 && ref >= 0)
+	// 40 hex digits that name no object: git stops there, go-git falls back to a ref of that name
+	verifrt.Known("C47-missing-oid-falls-back-to-ref", hex && len(name) == 40 && matches == 0 && ref >= 0)
+	// selectors the parser accepts and ResolveRevision skips
+	verifrt.Known("C47-selector-ignored", verifC47Index(rest, "@{") >= 0 || verifC47Index(rest, ":") >= 0 ||
+		verifC47Index(rest, "^{tree}") >= 0 || verifC47Index(rest, "^{blob}") >= 0)
+	// ^{tag} applied to something that is not a tag object: git fails, go-git skips it
+	tagOnCommit := false
+	if k := verifC47Index(e, "^{tag}"); k >= 0 {
+		o := m.oid1(e[:k], verifC47HintNone)
+		tagOnCommit = o >= 0 && m.Objs[o].Kind != 't'
+	}
+	verifrt.Known("C47-caret-tag-on-commit-ignored", tagOnCommit)
+	// the token after "^{}" / "^{/}" is dropped by parseCaretBraces
+	i, j := verifC47Index(rest, "^{}"), verifC47Index(rest, "^{/}")
+	verifrt.Known("C47-token-after-empty-braces-dropped", i >= 0 && i+3 < len(rest) || j >= 0 && j+4 < len(rest))
+}
+
+// verifC47Concretize: case split (driven by the solver: only feasible values
+// are explored) on every byte the path condition has not pinned down, so that
+// the reference model runs on concrete bytes.
+func verifC47Concretize(e []byte, alphabet string) []byte {
+	out := make([]byte, len(e))
+	for i := range e {
+		found := false
+		for j := 0; j < len(alphabet) && !found; j++ {
+			if e[i] == alphabet[j] {
+				out[i] = alphabet[j]
+				found = true
+			}
+		}
+		if !found {
+			out[i] = e[i]
+		}
+	}
+	return out
+}
+
+func verifC47Compare(r *Repository, m *verifC47Repo, e []byte, alphabet string) {
 	got := verifC47Resolve(r, m, e)
 	if got < 0 {
 		verifrt.Reach("c47-rejected")
 		return
 	}
+	e = verifC47Concretize(e, alphabet)
 	want := m.RevParseCommit(e)
 	verifrt.Assume(!m.Outside)
+	verifC47Known(m, e)
 	verifrt.Reach("c47-compared")
 	verifrt.Assert(got == want, "c47-resolves-as-git")
+}
+
+// ---- ^{/regex} on generated histories ----
+
+// verifC47Searches: <rev>^{/<re>} expressions of the regex harness.
+var verifC47Searches = [][2]string{
+	{"HEAD", "x"}, {"HEAD", "!-x"}, {"HEAD", "tag"}, {"HEAD^2", "x"}, {"HEAD~1", "!-y"}, {"HEAD", "!!"}, {"HEAD", "a tag"},
+}
+
+// Regex harness: every history of N commits (ordered lists of <= MP distinct
+// earlier parents), HEAD -> refs/heads/m -> last commit; each message is one
+// symbolic byte 'x' or 'y' plus LF, each committer time one symbolic digit;
+// expression = one of the first S entries of verifC47Searches.
+func VerifHarness_C47_regex() {
+	n, mp := verifrt.Param("N"), verifrt.Param("MP")
+	m := &verifC47Repo{}
+	for i := 0; i < n; i++ {
+		o := verifC47Obj{ID: verifC47ID("e"+"0123456789"[i:i+1], i+1), Kind: 'c', Target: -1}
+		lim := mp
+		if lim > i {
+			lim = i
+		}
+		np := verifrt.Range(0, lim)
+		for k := 0; k < np; k++ {
+			p := verifrt.Range(0, i-1)
+			for _, q := range o.Parents {
+				verifrt.Assume(q != p)
+			}
+			o.Parents = append(o.Parents, p)
+		}
+		c := verifrt.NondetByte()
+		verifrt.Assume(verifrt.Or(c == 'x', c == 'y'))
+		o.Msg = []byte{c, '\n'}
+		w := verifrt.NondetByte()
+		verifrt.Assume(verifrt.And(w >= '0', w <= '9'))
+		o.When = []byte{w}
+		m.Objs = append(m.Objs, o)
+	}
+	m.Refs = []verifC47Ref{{Name: "HEAD", Sym: "refs/heads/m"}, {Name: "refs/heads/m", Obj: n - 1}}
+	r := verifC47Open(m)
+	q := verifC47Searches[verifrt.Range(0, verifrt.Param("S")-1)]
+	e := []byte(q[0] + "^{/" + q[1] + "}")
+	got := verifC47Resolve(r, m, e)
+	if got < 0 {
+		verifrt.Reach("c47-regex-rejected")
+		return
+	}
+	want := m.RevParseCommit(e)
+	verifrt.Assume(!m.Outside)
+	// what go-git does: pre-order walk from <rev>, first match
+	re, neg := []byte(q[1]), false
+	if verifC47HasPrefix(re, "!-") {
+		re, neg = re[2:], true
+	} else if verifC47HasPrefix(re, "!!") {
+		re = re[1:]
+	}
+	start := m.RevParseCommit([]byte(q[0]))
+	verifrt.Known("C47-regex-search-order", start >= 0 && m.preorder(start, re, neg) != want)
+	last := q[1]
+	if j := verifC47Index([]byte(last), " "); j >= 0 {
+		last = last[j+1:]
+	}
+	verifrt.Known("C47-regex-ending-in-type-name", last == "commit" || last == "tree" || last == "blob" || last == "tag" || last == "object")
+	verifrt.Reach("c47-regex-compared")
+	verifrt.Assert(got == want, "c47-regex-resolves-as-git")
 }
